@@ -18,8 +18,31 @@ for fl in ('MEMB', 'MB', 'BP'):
            functions=(pre + 'read_unlock', pre + 'read_unlock_update_and_wakeup', 'urcu_common_wake_up_gp'),
            desc='%s: rcu_read_unlock for every reader word: -COUNT with phase kept; outermost: barrier before the store, store -> barrier -> futex test, wake-up iff futex == -1' % fl.lower()),
     ]
+for fl in ('MEMB', 'MB'):
+    OBLIGATIONS.append(Ob(name='C01.O5.%s.sync_skeleton' % fl.lower(), harness='C01/sync.c', entry='h_sync', defines=('FLAVOR_' + fl, '_LGPL_SOURCE'), mode='legacy',
+       replace=('urcu_wait_add', 'urcu_adaptative_busy_wait', 'urcu_move_waiters', 'urcu_wake_all_waiters', 'smp_mb_master', 'wait_for_readers'),
+       unwind=1, min_covers=4, checks=CK2, functions=('synchronize_rcu',),
+       desc='%s: synchronize_rcu protocol skeleton: wait_add; merged caller only waits; leader: lock gp, move_waiters BEFORE examining readers, lock registry, mb_master, scan, barrier, exactly one PHASE toggle, barrier, scan, splice, mb_master, unlocks in reverse order, wake_all last; registry set unchanged' % fl.lower()))
+for fl, nr, tiers in (('MEMB', 1, ('quick', 'thorough')), ('MB', 1, ('quick', 'thorough')), ('MEMB', 2, ('thorough',))):
+    OBLIGATIONS.append(Ob(name='C01.O4.%s.scan%d' % (fl.lower(), nr), harness='C01/scan.c', entry='h_scan', defines=('FLAVOR_' + fl, '_LGPL_SOURCE', 'NRMAX=%d' % nr), mode='legacy', tiers=tiers,
+       replace=('smp_mb_master', 'wait_gp'), rules=('qs_attempts_small',), tier='B', bound='<= %d reader(s), <= 3 passes,' % nr + ' RCU_QS_ACTIVE_ATTEMPTS reduced from 100 to 2 (scratch rewrite)',
+       unwind=4, cbmc_flags=('--no-unwinding-assertions',), min_covers=3 if nr == 2 else 2, checks=('--bounds-check', '--signed-overflow-check', '--div-by-zero-check'), timeout=900,
+       functions=('wait_for_readers', 'urcu_common_reader_state', 'cds_list_move'),
+       desc='wait_for_readers with arbitrary reader words at every load: never retires a reader on an OLD observation; CURRENT -> cur_snap (if supplied) else qsreaders; nothing lost/duplicated; sleeps only after arm -> mb_master -> full re-scan with one OLD; futex reset; lock discipline'))
+OBLIGATIONS.append(Ob(name='C01.O5.bp.sync_skeleton', harness='C01/sync_bp_qsbr.c', entry='h_sync', defines=('FLAVOR_BP', '_LGPL_SOURCE'), mode='legacy',
+   replace=('smp_mb_master', 'wait_for_readers'), unwind=1, min_covers=2, checks=CK2, functions=('urcu_bp_synchronize_rcu',),
+   desc='bp: synchronize_rcu skeleton: all signals blocked first and restored last; lock gp, lock registry, mb_master, scan, exactly one PHASE toggle, scan, splice, mb_master, unlocks in reverse order; registry set unchanged'))
+OBLIGATIONS.append(Ob(name='C01.O5.qsbr.sync_skeleton', harness='C01/sync_bp_qsbr.c', entry='h_sync', defines=('_LGPL_SOURCE',), mode='legacy',
+   replace=('urcu_wait_add', 'urcu_adaptative_busy_wait', 'urcu_move_waiters', 'urcu_wake_all_waiters', 'wait_for_readers', 'urcu_qsbr_thread_offline', 'urcu_qsbr_thread_online'),
+   unwind=1, min_covers=4, checks=CK2, functions=('urcu_qsbr_synchronize_rcu',),
+   desc='qsbr (64-bit): synchronize_rcu skeleton: caller offline (or full barrier) before queuing itself; merged caller only waits; leader: lock gp, move_waiters, lock registry, counter += GP_CTR exactly once, one scan, splice, unlocks, wake_all; online again iff it was (else full barrier)'))
+for entry, fns, what in (('h_state', ('urcu_qsbr_reader_state',), 'classification'), ('h_quiescent_state', ('_urcu_qsbr_quiescent_state', '_urcu_qsbr_quiescent_state_update_and_wakeup', 'urcu_qsbr_wake_up_gp'), 'quiescent_state'),
+                          ('h_offline', ('_urcu_qsbr_thread_offline', 'urcu_qsbr_wake_up_gp'), 'thread_offline'), ('h_online', ('_urcu_qsbr_thread_online',), 'thread_online')):
+    OBLIGATIONS.append(Ob(name='C01.O3.qsbr.' + entry[2:], harness='C01/qsbr.c', entry=entry, defines=('_LGPL_SOURCE',), unwind=1, min_covers=1, checks=CK2, functions=fns,
+                          desc='qsbr ' + what + ': reader-word update for all values; seq-cst publication; store -> barrier -> waiting test; waiting cleared -> barrier -> futex test; wake iff waiting && futex == -1'))
 META = {
-    'level': 'proof',
+    'level': 'other',
+    'explanation': 'C01 is a safety property over all schedules of readers and updaters; contracts decide, for all inputs, every per-function premise the accepted grace-period argument uses (reader-state classification, reader-word arithmetic and fences of lock/unlock/quiescent-state/offline/online for memb, mb, bp, qsbr; the protocol skeleton of all four synchronize_rcu implementations incl. waiter merging) and, bounded, the registry scan under arbitrary reader behaviour. The composition of these premises into the grace-period theorem is not machine-checked.',
     'trusted_base': ['CBMC 6.11', 'sequential meaning / event kinds of the uatomic and cmm primitives (atomics_seq.h)', 'futex system-call stub'],
     'assumptions': ['the grace-period theorem over all schedules (composition of the per-function obligations) is not machine-checked', 'x86-TSO: only store->load pairs need a full barrier'],
 }
